@@ -709,6 +709,16 @@ fn check_c02_graph_partial() {
                 for c in &comps { let k = reps.iter().filter(|r| c.contains(r)).count(); if k != 1 { falsified("DSet::orbit_reps (Traversal, partial D-set)", format!("{} orbit_reps({:?}, all)", txt, idx), format!("{:?}: component {:?} has {} representatives", reps, c, k)); break; } }
             } else { falsified("DSet::orbit_reps (Traversal, partial D-set)", format!("{} orbit_reps({:?}, all)", txt, idx), "panic".into()); }
         }
+        // orbit_reps_2d: exactly one representative of every (i, j)-component (an undefined operation is no edge); must return
+        for i in 0..=dim { for j in 0..=dim {
+            watch("DSet::orbit_reps_2d (partial D-set)", format!("{} orbit_reps_2d({}, {})", txt, i, j));
+            match quiet(|| ds.orbit_reps_2d(i, j)) {
+                Err(e) => falsified("DSet::orbit_reps_2d (partial D-set)", format!("{} orbit_reps_2d({}, {})", txt, i, j), format!("panic {}", e)),
+                Ok(reps) => { for d in 1..=n { let comp = reach(&ds, &[i, j], d); let k = reps.iter().filter(|r| comp.contains(r)).count();
+                    if k != 1 { falsified("DSet::orbit_reps_2d (partial D-set)", format!("{} orbit_reps_2d({}, {})", txt, i, j), format!("{:?}: the component {:?} has {} representatives", reps, comp, k)); break; } } }
+            }
+            unwatch();
+        } }
         let conn = reach(&ds, &all, 1).len() == n;
         if quiet(|| ds.is_connected()).ok() != Some(conn) { falsified("DSet::is_connected (partial D-set)", txt.clone(), format!("expected {}", conn)); }
         let complete = (0..=dim).all(|i| (1..=n).all(|d| ds.op(i, d).is_some()));
